@@ -19,23 +19,76 @@ from vf.runner import use_repo, ToolError, h64
 LEVEL = 'model_checking'
 RULE = (
     'Player list: BFS to fixpoint from PlayerList() and PlayerList(item) over '
-    'every PlayerListItemPacket with 1-2 actions of one type drawn from '
-    '{add, update game mode, update latency, update display name, remove} x '
-    '2 UUIDs x 2 values (3 values thorough); each explored history is '
-    'replayed on a fresh real tracker and on a dict reference, compared '
-    'after every packet; plus seeded walks of 200 packets.  Maps: '
+    'every PlayerListItemPacket of one action type out of {add, update game '
+    'mode, update latency, update display name, remove} carrying 0, 1 or 2 '
+    'actions (all ordered pairs, so the same UUID twice with equal and with '
+    'different values) or 3 actions whose first and last name the same UUID '
+    '(the same UUID three times in every value combination, or twice around '
+    'an action for the other UUID; first 2 values), over 2 UUIDs x 2 values '
+    '(3 values thorough); each explored history is replayed on a fresh real '
+    'tracker and '
+    'on a dict reference, compared after every packet; plus seeded walks of '
+    '200 packets; plus EVERY history of 1..4 (thorough 1..5) single-action '
+    'packets over {two different adds, one update of each field kind, '
+    'remove} of one UUID and {add, remove} of a bystander, each replayed from '
+    'scratch in lock-step (add after remove after add, updates before/after '
+    'add and after remove, without relying on canonical-state merging).  '
+    'Maps: the reference writes pixel i of the array at (offset_x + i mod '
+    'width, offset_z + i div width) for every i of the pixel array, whatever '
+    'height the packet declares, and compares the WHOLE pixel buffer and all '
+    'other fields after every packet; only updates whose pixels all lie '
+    'inside the map are in the alphabets (the harness refuses others).  '
     'MapSet(Map 4x4 id 0, Map 4x4 id 1) under apply_to_map_set with every '
     'patch rectangle w,h in 1..2 at every offset that fits x 2 pixel '
     'patterns x 2 ids and pixel-less packets, BFS depth 2 (thorough: also '
     'depth 3 on the one-id alphabet); empty MapSet (128x128 creation path) '
     'depth 2 on corner rectangles; apply_to_map on Map 4x4 and Map 5x3.  '
-    'Position: 32 flag sets x 2 priors x (every single-axis value + full '
-    'product of a value set).  Flags: every int 0..255 x every BitFieldEnum '
+    'Update shapes: apply_to_map on a Map 4x3 with EVERY update (width 1..5, '
+    'pixel count n >= 1, offset) whose pixels lie inside the map - '
+    'rectangular and ragged (n not a multiple of width: shorter than one '
+    'row, one-and-a-bit rows, k rows plus/minus 1), width 1, widths larger '
+    'than the pixel count, touching the last column/row, ending exactly at '
+    'the bottom-right border - declared height = rows carried, pixel values '
+    'specific to the update and never 0, BFS depth 2 = all ordered pairs, '
+    'i.e. every overlapping pair in both orders (thorough: also Map 5x4, '
+    'width 1..6); the same alphabet with every other declared height out of '
+    '{0, n div width, rows + 1}, depth 1; empty MapSet (128x128) with widths '
+    '{1, 3, 128, 255, +1 seed value; thorough also 2, 5, 127} x pixel counts '
+    '{1, w-1, w, w+1, 2w-1, 2w, 2w+1, 3w+1} (width 255: {1, 2, 127, 128}) '
+    'x anchors {top-left, ending '
+    'exactly at the last column, at the last row, at both, one short of '
+    'both, interior} that stay inside, BFS depth 2 and walks of 200; whole-'
+    'map updates (128x128 pixels, one pixel less, 127 rows plus 1, exactly '
+    'the last row / last column) depth 2.  '
+    'Position: 32 flag sets x 3 priors (zero, and two non-zero states, one '
+    'with angles at 0.125 / 359.875) x (every single-axis value + full '
+    'product of a value set + packets that make yaw, pitch or both END - as '
+    'an absolute value or as prior + delta when that axis is relative - '
+    'exactly on each of {-720, -360, 0, 360, 720, 1080} and 1/8 below and '
+    'above each).  Flags: every int 0..255 x every BitFieldEnum '
     'in the library and every generated one with <= 3 (thorough 4) members '
     'A..D over {0,1,2,3,4,8,0x7F,0x80,+1 seed value}; plain Enums over '
-    '-1..255.  Records: all pairs of instances per MutableRecord class '
-    '(library + generated with inherited/str slots).  Vectors: all pairs '
-    'over a component alphabet for every Vector subclass pair.  Aliases: '
+    '-1..255.  Records: the classes are grouped into inheritance families '
+    'and every family is run in one process in three orders of first use, '
+    'each order in freshly forked workers (base classes first; derived '
+    'classes first; a bare MutableRecord() first, then base classes first - '
+    'the last two with the value product limited to classes of <= 2 '
+    'slots); for every concrete MutableRecord class of the '
+    'library (+ generated ones with inherited/str slots) all ordered pairs '
+    'of instances (full product of a value alphabet for small classes, '
+    'otherwise a base record, every record differing from it in exactly one '
+    'field, and constant records; plus partially assigned ones), a second '
+    'separately built record for every field tuple (must be equal and hash '
+    'equally), and every (slot, value) assignment to a record that has '
+    'already been hashed and compared (must then equal, and hash like, a '
+    'fresh record with the new fields and differ from one with the old).  '
+    'Vectors: every operator (+, - with every ordered pair of Vector '
+    'classes; unary -; *, reflected *, /, // with int, float and bool '
+    'scalars incl. 0, 1, 1.0, -1.0, 0.0) over all vectors of a component '
+    'alphabet mixing ints and floats (incl. 0 and 0.0, so identity '
+    'shortcuts that skip int->float promotion show); result must be of the '
+    'left (vector) operand\'s class with exactly the component-wise values '
+    'and component types.  Aliases: '
     'BFS to fixpoint over assignments (through the alias and to the '
     'underlying attributes) for every alias of real packet classes and a '
     'synthetic host using every helper of minecraft/utility.py; a read of '
@@ -46,11 +99,24 @@ RULE = (
 ASSUMPTIONS = [
     'a tracker\'s future behaviour depends only on its canonical form '
     '(all slots / __dict__ entries, recursively); this is what lets the '
-    'fixpoint stand for histories of any length (200-step walks re-check it)',
+    'fixpoint stand for histories of any length (200-step walks and the '
+    'exhaustive short directed histories re-check it without merging)',
     'angles are judged on values for which prior + delta and the wrap are '
     'exact in binary64 (multiples of 1/8, |v| < 2^20); float rounding '
     'artefacts such as (-1e-20) % 360 == 360.0 are recorded in the evidence '
     'as an observation, not judged',
+    'map updates with a pixel outside the map are not prescribed by the '
+    'statement and are not executed; an update is inside when every pixel '
+    'position offset + (i mod width, i div width) is - so a width larger '
+    'than the pixel count is fine as long as the pixels present fit; the '
+    'declared height of a packet is not part of the prescribed placement '
+    '(pyCraft\'s own test applies width=1, height=0 with one pixel)',
+    'all actions of one player-list packet have the packet\'s action type '
+    '(the wire format cannot express anything else)',
+    'record classes influence each other only within an inheritance '
+    'family or through MutableRecord itself (the record phase runs before '
+    'the check\'s parent process has touched any record, so each order of '
+    'first use starts from untouched classes)',
     'records with unset slots are outside "compare field-wise"; they are '
     'executed and reported as outcomes, and only "== returned True => equal '
     'hash" is judged for them',
@@ -534,9 +600,12 @@ class PlayerListMachine(Machine):
             # three actions in one packet: the same UUID three times (every
             # value combination), and the same UUID twice around an action
             # for the other UUID
-            for a in acts[kind]:
-                for b in acts[kind]:
-                    for c in acts[kind]:
+            two = []                    # first two values of each UUID
+            for u in (U0, U1):
+                two += [a for a in acts[kind] if a[0] == u][:2]
+            for a in two:
+                for b in two:
+                    for c in two:
                         if a[0] == c[0] and [kind, [a, b, c]] not in alpha:
                             alpha.append([kind, [a, b, c]])
         rnd.shuffle(alpha)
@@ -785,14 +854,17 @@ def shaped_ops(mid, W, H, max_w, heights='rows'):
 def border_updates(widths):
     """Updates (w, n, ox, oz) of a 128x128 map around its borders: for every
     width, the pixel counts {1, w-1, w, w+1, 2w-1, 2w, 2w+1, 3w+1} (shorter
-    than a row, whole rows, one-and-a-bit rows, k rows minus/plus 1) at the
+    than a row, whole rows, one-and-a-bit rows, k rows minus/plus 1; for a
+    width beyond 128 the counts {1, 2, 127, 128} of a partial row) at the
     anchors: top-left corner, ending exactly at the last column, at the last
     row, at both, one short of both, and an interior point - every
     combination that stays inside the map."""
     out = []
     for w in widths:
-        for n in sorted({1, w - 1, w, w + 1, 2 * w - 1, 2 * w, 2 * w + 1,
-                         3 * w + 1}):
+        counts = {1, w - 1, w, w + 1, 2 * w - 1, 2 * w, 2 * w + 1, 3 * w + 1}
+        if w > 128:     # wider than the map: only part of one row can fit
+            counts = {1, 2, 127, 128}
+        for n in sorted(counts):
             if n < 1:
                 continue
             cols, rows = min(w, n), -(-n // w)
@@ -1862,13 +1934,20 @@ def generated_records():
     return [R0, R2, R3, R3e, S1, S2, R2twin]
 
 
+_RC = []
+
+
 def record_classes():
+    """(memoised: the generated classes must be the same objects for every
+    member of a family, or the order of first use would mean nothing)"""
     import inspect
-    L = lib()
-    libc = [c for c in library_classes(L.types.MutableRecord)
-            if not inspect.isabstract(c)]
-    return [('lib', c) for c in libc] + \
-           [('gen', c) for c in generated_records()]
+    if not _RC:
+        L = lib()
+        libc = [c for c in library_classes(L.types.MutableRecord)
+                if not inspect.isabstract(c)]
+        _RC.extend([('lib', c) for c in libc] +
+                   [('gen', c) for c in generated_records()])
+    return _RC
 
 
 def make_record(cls, slots, values):
@@ -1883,13 +1962,16 @@ def make_record(cls, slots, values):
     return r
 
 
-def record_instances(cls, tier, seed):
+def record_instances(cls, tier, seed, light=False):
+    """light: the full product of the value alphabet only up to 2 slots."""
     slots = own_slots(cls)
     vals = list(REC_VALUES_T if tier == 'thorough' else REC_VALUES_Q)
     vals.append(random.Random('rec/%d' % seed).randrange(2, 1 << 40))
     n = len(slots)
     tuples = []
-    if n <= (3 if tier == 'thorough' else 2) or (n == 3 and len(vals) <= 6):
+    if n <= 2 or (not light and (
+            n <= (3 if tier == 'thorough' else 2) or
+            (n == 3 and len(vals) <= 6))):
         tuples = [list(t) for t in itertools.product(vals, repeat=n)]
     else:
         base = [100 + i for i in range(n)]
@@ -1924,10 +2006,94 @@ def fields_equal(x, y):
     return len(x) == len(y) and all(a == b for a, b in zip(x, y))
 
 
-def w_records(sub, idx):
+class _Noted(object):
+    """A context whose violations carry a note on the order of events."""
+
+    def __init__(self, ctx, note):
+        self._ctx, self._note = ctx, note
+
+    def violation(self, key, what, case):
+        self._ctx.violation(key, what + self._note, case)
+
+    def __getattr__(self, name):
+        return getattr(self._ctx, name)
+
+
+REC_ORDERS = ('base classes first', 'derived classes first',
+              'MutableRecord itself first')
+
+
+def record_family(idx):
+    """Indices (into record_classes()) of the classes sharing idx's topmost
+    record ancestor below MutableRecord, base classes first."""
+    MR = lib().types.MutableRecord
+    classes = record_classes()
+
+    def root(c):
+        return [k for k in c.__mro__ if issubclass(k, MR) and k is not MR][-1]
+    r = root(classes[idx][1])
+    fam = [i for i, (_, c) in enumerate(classes) if root(c) is r]
+    fam.sort(key=lambda i: (len(classes[i][1].__mro__), i))
+    return fam
+
+
+def record_families():
+    seen, out = set(), []
+    for i in range(len(record_classes())):
+        if i not in seen:
+            fam = record_family(i)
+            seen.update(fam)
+            out.append(fam[0])
+    return out
+
+
+def w_record_family(sub, task):
+    """All checks of w_records for every class of one family, in one process,
+    in a stated order of first use: class-level state that one record class
+    leaves behind for its relatives (e.g. a memo found through inheritance)
+    only shows when the relative is used afterwards.  Each order runs in its
+    own pool of freshly forked workers (the parent never uses a record), and
+    families share nothing but MutableRecord itself."""
+    first, order = task
+    fam = record_family(first)
+    if order == 'derived classes first':
+        fam = fam[::-1]
+    sub.cls('records: family of %d class(es), %s' % (len(fam), order))
+    if len(fam) > 1:
+        sub.cls('records: family with inheritance, ' + order)
+    if order == 'MutableRecord itself first':
+        MR = lib().types.MutableRecord
+        sub.count()
+        sub.note_distinct(1)
+        try:
+            a, b = MR(), MR()
+            ok = (a == b) and not (a != b) and hash(a) == hash(b) \
+                and list(a) == [] and isinstance(repr(a), str)
+            why = 'two bare MutableRecord() do not compare/hash equal or ' \
+                  'have fields' if not ok else None
+        except Exception as e:
+            why = 'using a bare MutableRecord() raised %s: %s' % (
+                type(e).__name__, e)
+        if why:
+            sub.violation('records MutableRecord itself', why,
+                          {'part': 'records', 'cls': first, 'order': order,
+                           'tier': sub.tier, 'seed': sub.seed})
+    for idx in fam:
+        kind, cls = record_classes()[idx]
+        # the full value product once per class: in the first order, and not
+        # for a generated class that only inherits its fields
+        light = order != REC_ORDERS[0] or (
+            kind == 'gen' and not cls.__dict__.get('__slots__'))
+        w_records(sub, idx, order, light)
+
+
+def w_records(sub, idx, order=None, light=False):
+    if order is not None:
+        sub = _Noted(sub, ' [record classes of the family were first used in '
+                          'the order: %s]' % order)
     kind, cls = record_classes()[idx]
     ident = '%s %s' % (kind, cls.__qualname__)
-    slots, full, partial = record_instances(cls, sub.tier, sub.seed)
+    slots, full, partial = record_instances(cls, sub.tier, sub.seed, light)
     sub.cls('records: class %s slots=%d%s' % (
         ident, len(slots),
         ' (inherited)' if sum(1 for k in cls.__mro__
@@ -1935,7 +2101,7 @@ def w_records(sub, idx):
 
     def case(a, b):
         return {'part': 'records', 'cls': idx, 'name': cls.__qualname__,
-                'tier': sub.tier, 'seed': sub.seed,
+                'tier': sub.tier, 'seed': sub.seed, 'order': order,
                 'a': [brief(v) for v in a], 'b': [brief(v) for v in b],
                 'ia': a_index.get(id(a)), 'ib': a_index.get(id(b))}
     allt = full + partial
@@ -2517,6 +2683,13 @@ def run(ctx):
     ctx.pmap(w_flags, tasks)
     t0 = _phase(t0, 'flags')
 
+    # records: before anything else touches a record in this process, so
+    # that every order of first use gets freshly forked, untouched workers
+    for order in REC_ORDERS:
+        ctx.pmap(w_record_family, [(f, order) for f in record_families()])
+    records_cross(ctx)
+    t0 = _phase(t0, 'records')
+
     # trackers
     explore(ctx, 'playerlist', parallel=True, chunk=4)
     walks(ctx, 'playerlist', 12 if ctx.thorough else 4, 200)
@@ -2552,10 +2725,7 @@ def run(ctx):
         tiny[3] if tiny else None)
     t0 = _phase(t0, 'position')
 
-    # records, vectors
-    ctx.pmap(w_records, list(range(len(record_classes()))))
-    records_cross(ctx)
-    t0 = _phase(t0, 'records')
+    # vectors
     nt = len(vector_types())
     vt = [(op, li, ri) for op in ('add', 'sub') for li in range(nt)
           for ri in range(nt)]
@@ -2613,6 +2783,7 @@ def run(ctx):
             'compared',
             'vectors: mul with a float scalar',
             'vectors: rmul with a float scalar']
+    need += ['records: family with inheritance, ' + o for o in REC_ORDERS]
     need += ['playerlist: update of %s of %s player' % (f, k)
              for f in ('gamemode', 'ping', 'display_name')
              for k in ('a known', 'an unknown')]
@@ -2671,7 +2842,11 @@ def replay(ctx, case):
                 judge_enum(ctx, cls, case['value'], case['cls'], case)
     elif part == 'records':
         ctx.tier, ctx.seed = case['tier'], case['seed']
-        w_records(ctx, case['cls'])
+        if case.get('order'):
+            w_record_family(ctx, (record_family(case['cls'])[0],
+                                  case['order']))
+        else:
+            w_records(ctx, case['cls'])
     elif part == 'records-cross':
         records_cross(ctx)
     elif part == 'vectors':
